@@ -13,7 +13,7 @@ RULE = ('histories through the real main_loop with a table monitor (no duplicate
         '(a) exhaustive interleavings with <=1 duplicated datagram and sampled ones with <=3 duplicates of IKE rekey / delete '
         'exchanges from either side, (b) a hub with several peers and simultaneous initiations under random schedules with '
         'duplication, (c) header SPI x flag x exchange-type matrix of forged datagrams, (d) status query compared with the table, '
-        '(e) kernel EXPIRE routing incl. a peer-chosen SPI collision. distinct = distinct action sequences / matrix cells.')
+        '(e) kernel EXPIRE routing incl. a peer-chosen SPI collision (notices echo the xfrm_usersa_info the SA was installed with; same-family, 4in6 and 6in4 tunnels). distinct = distinct action sequences / matrix cells.')
 ASSUMPTIONS = ['peers run the repository code; forged datagrams carry no valid checksum (routing is observed, not acceptance)',
                'the SPI collision is produced by forcing the peer\'s os.urandom for its inbound SPI (ESP SPIs are public on the wire)']
 SHARDS = {'quick': 8, 'thorough': 16}
@@ -415,8 +415,12 @@ def run(ck):
     for w in range(ncol):
         if not ck.mine(w):
             continue
-        sim, hub, peers = S.make_star(base + 977 * w, peers=2)
-        sim.case = {'collision': True, 'seed': base + 977 * w}
+        # every third set-up is a tunnel whose protected networks are of the OTHER family than the gateways (the notice's selector family differs from the SA's)
+        star_kw = [{}, dict(v6=True, mode='tunnel', a_subnet='10.{i}.0.0/24', b_subnet='10.100.{i}.0/24'),
+                   dict(mode='tunnel', a_subnet='fd00:{i}::/64', b_subnet='fd00:100:{i}::/64')][(w // 2) % 3]
+        sim, hub, peers = S.make_star(base + 977 * w, peers=2, **star_kw)
+        sim.case = {'collision': True, 'seed': base + 977 * w, 'star': star_kw}
+        ck.seen('collision.star_kinds', (w // 2) % 3)
         for m in mons:
             m.reset()
             sim.monitors.append(m.on_step)
@@ -454,8 +458,8 @@ def run(ck):
         sim.settle()
         ck.nontrivial(('collision', w % 4))
         # the same collision INSIDE one IKE_SA: P1 picks, as its inbound SPI of a second CHILD_SA, the hub's inbound SPI of the first one
-        sim2, hub2, (q1, q2) = S.make_star(base + 991 * w + 7, peers=2)
-        sim2.case = {'collision': 'same-ike-sa', 'seed': base + 991 * w + 7}
+        sim2, hub2, (q1, q2) = S.make_star(base + 991 * w + 7, peers=2, **star_kw)
+        sim2.case = {'collision': 'same-ike-sa', 'seed': base + 991 * w + 7, 'star': star_kw}
         for m in mons:
             m.reset()
             sim2.monitors.append(m.on_step)
@@ -502,6 +506,7 @@ def verdict(ck):
     ck.floor('status queries', ck.counters['status.queries'], 1000)
     ck.floor('expire notices', ck.counters['expire.checked'], 100)
     ck.floor('SPI collision set-ups', ck.counters['collision.setups'], 6)
+    ck.floor('SPI collision star kinds (same family, 4in6, 6in4)', len(ck.sets['collision.star_kinds']), 3)
     ck.floor('SPI collision set-ups inside one IKE_SA', ck.counters['collision.same_ike_sa_setups'], 6)
     ck.floor('held-DELETE histories', ck.counters['held.leaves'], 40)
     ck.floor('unanswered-request histories', ck.counters['unanswered.histories'], 25)
